@@ -1218,3 +1218,218 @@ def live_inventories() -> Tuple[Dict[str, Tuple[str, bool]], List[str]]:
     _, nodes, _ = build(case)
     kinds = sorted({type(ni).__name__ for n in nodes for ni in n.network_interface.values()})
     return reg, kinds
+
+
+# ------------------------------------------------------------------------------------------------ routes registered at run time
+RT_TARGETS = (("OFF", 0, 0), ("OFF", 2, 2), ("SHUTTING_DOWN", 2, 2), ("BOOTING", 2, 2))
+
+
+def _rt_apps() -> List[str]:
+    import primaite.game.game  # noqa: F401  (registers every application class)
+    from primaite.simulator.system.applications.application import Application
+    return sorted(Application._registry)
+
+
+def runtime_install_cases() -> List[dict]:
+    """an application installed DURING the episode (through the `software_manager application install` request, and through
+    `SoftwareManager.install`, the two run-time registration sites), on a computer and a server, every application class of the
+    registry that the node does not carry yet; then the node is taken to OFF (instantly / after the countdown), SHUTTING_DOWN or
+    BOOTING, and EVERY leaf of the node's live request tree (every verb of every route, those registered at run time included)
+    is sent"""
+    out = []
+    for cls in ("computer", "server"):
+        for app in _rt_apps():
+            for via in ("request", "software_manager"):
+                for target, up, down in RT_TARGETS:
+                    out.append({"kind": "rtinstall", "cls": cls, "app": app, "via": via, "target": target, "up": up, "down": down})
+    return out
+
+
+def _live_leaves(rm, prefix: Tuple, depth: int = 0) -> List[Tuple]:
+    """every path of a live request tree; a route whose function is another manager — or a bound method of a component that owns
+    one (`apply_request`, the shape of seeded C11-h) — is descended into"""
+    from primaite.simulator.core import RequestManager
+    out = []
+    for key, rt in rm.request_types.items():
+        f = rt.func
+        sub = f if isinstance(f, RequestManager) else getattr(getattr(f, "__self__", None), "_request_manager", None)
+        if isinstance(sub, RequestManager) and depth < 8:
+            inner = _live_leaves(sub, prefix + (key,), depth + 1)
+            out += inner if inner else [prefix + (key,)]
+        else:
+            out.append(prefix + (key,))
+    return out
+
+
+def run_rtinstall(case: dict) -> Tuple[List[str], Dict[str, int]]:
+    """Returns (failures `oracle|cls|detail`, histogram)."""
+    import json as _json
+    from primaite.simulator.network.hardware.node_operating_state import NodeOperatingState
+    from primaite.simulator.system.applications.application import Application
+    hist: Dict[str, int] = {}
+    fails: List[str] = []
+    cls, app = case["cls"], case["app"]
+    sim, nodes, _ = build(pair_case(case["up"], case["down"], 1, 1, [], cls=(cls, "computer")))
+    n = nodes[0]
+    host = n.config.hostname
+    t = [0]
+
+    def tick():
+        sim.pre_timestep(t[0])
+        sim.apply_timestep(t[0])
+        t[0] += 1
+
+    def req(path):
+        try:
+            return sim.apply_request(["network", "node", host, *path], {}).status
+        except Exception as e:
+            return f"raised:{type(e).__name__}: {e}"
+    had = app in n.software_manager.software
+    if case["via"] == "request":
+        st = req(["software_manager", "application", "install", app])
+        if st != "success":
+            fails.append(f"runtime-install-refused-while-on|{cls}|{app}: {st}")
+            return fails, hist
+    elif not had:
+        n.software_manager.install(Application._registry[app])
+    hist["installed-at-run-time" if not had else "already-installed"] = 1
+    for _ in range(4):
+        tick()
+    inst = n.software_manager.software.get(app)
+    if inst is None or app not in n._application_request_manager.request_types:
+        fails.append(f"runtime-install-left-no-route|{cls}|{app}")
+        return fails, hist
+    app_leaves = [p for p in _live_leaves(n._request_manager, ()) if p[:2] == ("application", app)]
+    hist["verbs-of-the-installed-application"] = len(app_leaves)
+    if not app_leaves:
+        fails.append(f"runtime-install-left-no-route|{cls}|{app}: no leaf below application/{app}")
+    # --- take the node out of ON
+    if req(["shutdown"]) != "success":
+        fails.append(f"shutdown-refused-while-on|{cls}|{app}")
+        return fails, hist
+    if case["target"] in ("OFF", "BOOTING"):
+        for _ in range(case["down"] + 1 if case["down"] > 0 else 0):
+            tick()
+    if case["target"] == "BOOTING":
+        req(["startup"])
+    if n.operating_state.name != case["target"]:
+        fails.append(f"rig-did-not-reach-target|{cls}|{n.operating_state.name} != {case['target']}")
+        return fails, hist
+    leaves = _live_leaves(n._request_manager, ())
+    hist["leaves-sent"] = 0
+    before = _json.dumps(n.describe_state(), sort_keys=True, default=str)
+    st_before = n.operating_state
+    only = tuple(case["only"]) if case.get("only") else None    # a replay sends the one failing request
+    for p in leaves:
+        if p == ("startup",) and case["target"] == "OFF":
+            continue   # the one request an OFF node accepts
+        for tail in ((), ("x",)):
+            if only is not None and tuple(map(str, p + tail)) != only:
+                continue
+            s = req(list(p) + list(tail))
+            hist["leaves-sent"] += 1
+            rt = "runtime" if p[:2] == ("application", app) else "other"
+            hist[f"answer:{rt}:{s.split(':')[0]}"] = hist.get(f"answer:{rt}:{s.split(':')[0]}", 0) + 1
+            if s != "failure":
+                fails.append(f"runtime-tree-request-accepted-while-not-on|{cls}|{'/'.join(map(str, p + tail))} -> {s} with the node {case['target']} "
+                             f"({app} installed at run time via {case['via']})")
+    if n.operating_state != st_before or _json.dumps(n.describe_state(), sort_keys=True, default=str) != before:
+        fails.append(f"refused-requests-changed-the-node|{cls}|{case['target']} ({app} via {case['via']})")
+    return fails, hist
+
+
+# ------------------------------------------------------------------------------------------------ the interfaces' own methods, probed
+def iface_probe() -> Dict[str, str]:
+    """REAL interface objects of every class a node carries, standalone (no node) and in a node in each power state, with and
+    without a link, up and down: each translated `enable` / `disable` of the object's MRO is called (the base classes' unbound)
+    and what happened — interface up afterwards, the answer, or that it raised — is keyed like the `table` lines of drv_c12prog.
+    This validates the TRANSLATION (a dereference of a missing node raises, a Node / Link object is truthy, the statements
+    classified inert do not touch `enabled`); it proves nothing about the property."""
+    from primaite.simulator.network.airspace import AirSpace, WirelessNetworkInterface
+    from primaite.simulator.network.hardware.base import IPWiredNetworkInterface, Link, WiredNetworkInterface
+    from primaite.simulator.network.hardware.node_operating_state import NodeOperatingState
+    from primaite.simulator.network.hardware.nodes.host.computer import Computer
+    from primaite.simulator.network.hardware.nodes.host.host_node import NIC
+    from primaite.simulator.network.hardware.nodes.network.router import Router, RouterInterface
+    from primaite.simulator.network.hardware.nodes.network.switch import Switch, SwitchPort
+    from primaite.simulator.network.hardware.nodes.network.wireless_router import WirelessAccessPoint, WirelessRouter
+    from primaite.simulator.network.airspace import IPWirelessNetworkInterface
+    mask = "255.255.255.0"
+    uniq = [0]
+
+    def host(k: int):
+        uniq[0] += 1
+        return Computer.from_config({"type": "computer", "hostname": f"p{uniq[0]}", "ip_address": f"10.7.{k}.{uniq[0] % 200 + 2}", "subnet_mask": mask,
+                                     "start_up_duration": 0, "shut_down_duration": 0})
+
+    def make(kind: str, has_node: bool):
+        """(interface, node or None, a second free interface of the same kind to wire to)"""
+        uniq[0] += 1
+        if kind == "NIC":
+            if has_node:
+                a, b = host(1), host(1)
+                return a.network_interface[1], a, b.network_interface[1]
+            return NIC(ip_address="10.7.2.2", subnet_mask=mask), None, NIC(ip_address="10.7.2.3", subnet_mask=mask)
+        if kind == "SwitchPort":
+            if has_node:
+                a = Switch.from_config({"type": "switch", "hostname": f"p{uniq[0]}a", "num_ports": 2})
+                b = Switch.from_config({"type": "switch", "hostname": f"p{uniq[0]}b", "num_ports": 2})
+                return a.network_interface[1], a, b.network_interface[1]
+            return SwitchPort(), None, SwitchPort()
+        if kind == "RouterInterface":
+            if has_node:
+                a = Router.from_config({"type": "router", "hostname": f"p{uniq[0]}a", "num_ports": 2,
+                                        "ports": {1: {"ip_address": "10.7.3.1", "subnet_mask": mask}}})
+                b = Router.from_config({"type": "router", "hostname": f"p{uniq[0]}b", "num_ports": 2,
+                                        "ports": {1: {"ip_address": "10.7.3.2", "subnet_mask": mask}}})
+                return a.network_interface[1], a, b.network_interface[1]
+            return RouterInterface(ip_address="10.7.3.1", subnet_mask=mask), None, RouterInterface(ip_address="10.7.3.2", subnet_mask=mask)
+        if kind == "WirelessAccessPoint":
+            air = AirSpace()
+            if has_node:
+                a = WirelessRouter.from_config({"type": "wireless-router", "hostname": f"p{uniq[0]}", "router_interface": {"ip_address": "10.7.4.1", "subnet_mask": mask},
+                                                "wireless_access_point": {"ip_address": "10.7.5.1", "subnet_mask": mask, "frequency": "WIFI_2_4"}}, airspace=air)
+                ap = next(i for i in a.network_interfaces.values() if isinstance(i, WirelessAccessPoint))
+                return ap, a, None
+            return WirelessAccessPoint(ip_address="10.7.5.1", subnet_mask=mask, airspace=air), None, None
+        raise ValueError(kind)
+
+    METHODS = {
+        "NIC": [("IPWiredNetworkInterface.enable", IPWiredNetworkInterface.enable), ("WiredNetworkInterface.enable", WiredNetworkInterface.enable),
+                ("WiredNetworkInterface.disable", WiredNetworkInterface.disable), ("IPWiredNetworkInterface.enable", None), ("WiredNetworkInterface.disable", None)],
+        "RouterInterface": [("IPWiredNetworkInterface.enable", None), ("WiredNetworkInterface.disable", None)],
+        "SwitchPort": [("WiredNetworkInterface.enable", None), ("WiredNetworkInterface.disable", None)],
+        "WirelessAccessPoint": [("IPWirelessNetworkInterface.enable", None), ("WirelessNetworkInterface.disable", None),
+                                ("WirelessNetworkInterface.enable", WirelessNetworkInterface.enable), ("IPWirelessNetworkInterface.enable", IPWirelessNetworkInterface.enable)],
+    }
+    out: Dict[str, str] = {}
+    for kind, meths in METHODS.items():
+        code = NIC_KIND[kind]
+        for mname, unbound in meths:
+            for has_node in (False, True):
+                for st in ([None] if not has_node else list(NodeOperatingState)):
+                    for linked in ((False, True) if code != "w" else (True,)):
+                        for en in (False, True):
+                            iface, node, peer = make(kind, has_node)
+                            if linked and peer is not None:
+                                Link(endpoint_a=iface, endpoint_b=peer, bandwidth=100.0)
+                            if node is not None:
+                                node.operating_state = st
+                            iface.enabled = en
+                            if code == "w":
+                                (iface.airspace.add_wireless_interface if en else iface.airspace.remove_wireless_interface)(iface)
+                            hello = 1 if (node is not None and hasattr(node, "default_gateway_hello")) else 0
+                            try:
+                                ans = (unbound(iface) if unbound is not None else getattr(iface, mname.split(".")[1])())
+                                res = "answer=None" if ans is None else f"answer={'true' if ans else 'false'}"
+                            except Exception:
+                                res = "RAISES"
+                            l_after = linked if code == "w" else (iface._connected_link is not None)
+                            after = f"{int(bool(iface.enabled))}{int(l_after)}{code}"
+                            for l_row in ((0, 1) if code == "w" else (int(linked),)):   # the wireless bodies do not read the link
+                                key = f"table {mname} {int(en)}{l_row}{code} {st.name if st is not None else 'None'} {hello}"
+                                val = f"{after[0]}{l_row}{code} {res}"
+                                if out.get(key, val) != val:
+                                    val = out[key] + " / " + val   # two real objects of one context disagree
+                                out[key] = val
+    return out
